@@ -119,7 +119,7 @@ def write(path, tier, seed, results, violations, known_hits, harness_errors, wal
             nontrivial += o["distinct_nontrivial"]
             for s in o.get("samples", [])[:2]:
                 samples.append({"engine": name, "scenario": s})
-        elif name == "W":
+        elif name in ("W", "W_sync"):
             e = o["summary"]
             evaluations += o["worlds"]
             nontrivial += o["distinct_nontrivial"]
